@@ -704,7 +704,17 @@ def rule_reader_admits(ctx):
     C08.rule_reader(R.Retag(ctx, "C08."))
 
 
+def rule_lists_reported_under_their_own_name(ctx):
+    """R7: the lists reported next to the fingerprints (signature algorithms, curves, point formats, cipher suites, extensions) are the
+    ones the fingerprint was computed from: no two same-typed fields exchanged while the signature is copied into the output (shared rule
+    _argswap.swapped_fields)"""
+    from . import _argswap as AS
+    n = AS.swapped_fields(ctx, ctx.program, "R7", ("huginn_net_tls",))
+    ctx.floor("R7", "struct literals in the TLS crate", n, 5)
+
+
 def run(ctx):
+    rule_lists_reported_under_their_own_name(ctx)
     rule_extension_wire_type(ctx)
     rule_reader_admits(ctx)
     rule_R1(ctx)
